@@ -292,6 +292,8 @@ def set_order(i: int) -> bool:
         if pos == i:
             picked.append(member)
     forward, backward = _native_sets(picked)
+    if P.get('FROZEN'):
+        forward, backward = frozenset(forward), frozenset(backward)
     one, two = build(forward), build(backward)
     reach()
     if one != two:
@@ -323,12 +325,13 @@ def set_orders_native():
                 forward.add(member)
             for member in reversed(picked):
                 backward.add(member)
-            one, two = build(forward), build(backward)
-            if one == two and (json.dumps(one) != json.dumps(two) or _markdown(one) != _markdown(two)):
-                problems.append('%s filled as %s and in reverse: equal objects, different output' % (
-                    field, '+'.join(member.name for member in picked)))
-                if len(problems) > 5:
-                    return problems
+            for kind in (set, frozenset):
+                one, two = build(kind(forward)), build(kind(backward))
+                if one == two and (json.dumps(one) != json.dumps(two) or _markdown(one) != _markdown(two)):
+                    problems.append('%s (%s) filled as %s and in reverse: equal objects, different output' % (
+                        field, kind.__name__, '+'.join(member.name for member in picked)))
+            if len(problems) > 5:
+                return problems
     return problems
 
 
@@ -517,11 +520,13 @@ def shards(tier, seed):
         rng.shuffle(pairs)
         # CPython keeps small sets in 8 slots: members whose hash (= flag value) agrees mod 8 collide
         for j, k in ([(3, 4)] + pairs[:30] if thorough else [(3, 4)] + pairs[:1]):
-            out.append(Shard(MOD, 'set_order', 'set_order/%s/%d_%d' % (field, j, k), {'FIELD': field, 'J': j, 'K': k},
+            frozen = (j + k) % 2 == 1
+            out.append(Shard(MOD, 'set_order', 'set_order/%s/%d_%d' % (field, j, k),
+                             {'FIELD': field, 'J': j, 'K': k, 'FROZEN': frozen},
                              300 if thorough else 90, group='set_order/' + field,
-                             bounds='MySQL handshake whose set-valued field %s holds members %d, %d and any third one, '
-                                    'filled in two insertion orders: equal objects, identical JSON and Markdown' % (
-                                        field, j, k)))
+                             bounds='MySQL handshake whose set-valued field %s (a %s) holds members %d, %d and any third '
+                                    'one, filled in two insertion orders: equal objects, identical JSON and Markdown' % (
+                                        field, 'frozenset' if frozen else 'set', j, k)))
     for low in (range(0, 256, 16) if thorough else (0, 16 * rng.randrange(1, 8), 16 * rng.randrange(8, 16))):
         out.append(Shard(MOD, 'value_kinds', 'value_kinds/%d' % low, {'LO': low, 'HI': low + 16}, 300 if thorough else 60,
                          group='value_kinds',
